@@ -1,0 +1,16 @@
+//go:build verif
+
+// Contracts for gzv (contract-based deductive verification, /verif). Comment-only file.
+package lang
+
+// ---------------------------------------------------------------------------------------------
+// C15: the identity of a ring member is its representation, so distinct numeric nodes must have distinct
+// representations. The shortest round-trip format at the width of the type (FormatFloat(x, 'f', -1, 32|64)) and base-10
+// integers are injective on the values of their type; these are the parameters the code must pass.
+// ---------------------------------------------------------------------------------------------
+//@ func reprOfValue
+//@   property C15
+//@   call FormatFloat#0: assert arg_fmt == 'f' && arg_prec == -1 && arg_bitSize == 32
+//@   call FormatFloat#1: assert arg_fmt == 'f' && arg_prec == -1 && arg_bitSize == 64
+//@   call FormatInt#*: assert arg_base == 10
+//@   call FormatUint#*: assert arg_base == 10
